@@ -271,7 +271,7 @@ def matches_known(ctx, kernel, meta, failure):
                 return "N14b"
         if cls == "AddrGroup" and meta.get("class") == "addrgroups" and len([x for x in r.split("\n") if x.strip()]) == 1:
             return "N13"        # a group without members (only description lines in the configuration)
-        if failure.get("platform") == "asa" and ((cls == "AddressAg" and r.strip() == "") or cls == "AddrGroup"):
+        if failure.get("platform") == "asa" and ((cls == "AddressAg" and (r.strip() == "" or r.strip().isdigit())) or cls == "AddrGroup"):
             return "N12"        # address groups are not implemented for ASA (no header syntax, no prefix rendering)
         if cls == "Acl" and r.split("\n")[0].strip() in ("ip access-list extended", "ip access-list standard", "ip access-list"):
             return "N8"
